@@ -452,7 +452,7 @@ func runCrash(in Sx) Sx {
 // ---- generator
 
 func genCrash(c *Ctx) {
-	run := func(in Sx) { c.Emit(in, runCrash(in)) }
+	run := func(in Sx) { c.Pending(in); c.Emit(in, runCrash(in)) }
 	S := Int(0)
 	pb := Str("POST-CRASH-MESSAGE")
 	// the witnesses of DESIGN section 7 / F9 and of the two classes around Reset; the last element selects which of the
